@@ -324,6 +324,26 @@ EXTRA = {
     "C18": "short names are never tested against NamedItemList.keys(); the parameter comparison "
            "is reached under length / position tests only",
 }
+for _k, _v in {
+    "C01": "effective is_end_of_pdu of every EncodeState construction; first-match agreement of "
+           "the multiplexer case selection",
+    "C02": "effective is_end_of_pdu of every EncodeState construction",
+    "C03": "tolerance ceilings; integer formulas shared with C02",
+    "C04": "rounding and multiplexer first-match rules shared with C03 / C01",
+    "C05": "registered codec error handler names; names never tested against object lists",
+    "C07": "tolerance ceilings of the compu methods",
+    "C08": "the constant prefix is encoded as the end of a PDU",
+    "C10": "SnRefContext fields owned by the entry points are not written by _resolve_snrefs",
+    "C11": "no number formatting in templates; enum members written by value; reference tested "
+           "before the object resolved from it",
+    "C12": "regex AST check of the bracketed frame length; fromhex guard",
+    "C13": "fromhex guard of the log reader",
+    "C14": "unconditional response lists; full split of the SNPATHREF",
+    "C15": "one-pass collection of sub-values",
+    "C17": "the switch is tested by truthiness; prefix-filter coverage shared with C06; the CLI "
+           "switch is registered once",
+}.items():
+    EXTRA[_k] = (EXTRA[_k] + "; " + _v) if _k in EXTRA else _v
 COMMON = ("; shared over the property's scope: hidden-state rules (mutable defaults, memos keyed "
           "by name, lazily cached values ignoring an argument, memoised methods, indexes derived "
           "from lists that a later initialisation phase extends, containers that accumulate "
